@@ -60,6 +60,7 @@ type Failure struct {
 	Steps   int    `json:"steps"`
 	Stack   string `json:"stack,omitempty"`
 	Threads string `json:"threads,omitempty"`
+	Params  interface{} `json:"params,omitempty"` // sequential checks: the failing case itself
 }
 
 // Exec is one execution.
